@@ -28,7 +28,7 @@ def correspond(ctx, scale):
     cases, meta, failures, samples = [], [], [], []
     nontrivial = 0
     evaluations = 0
-    dist = {'euclid': 0, 'cosine': 0, 'thr0': 0, 'fractional_thr': 0, 'reset_set': 0, 'K_gt_batch': 0, 'heads': 0, 'steps_with_expiry': 0, 'rvq_shared': 0, 'rvq_layers': 0, 'eval_frozen': 0}
+    dist = {'euclid': 0, 'cosine': 0, 'thr0': 0, 'fractional_thr': 0, 'reset_set': 0, 'K_gt_batch': 0, 'heads': 0, 'steps_with_expiry': 0, 'rvq_shared': 0, 'rvq_layers': 0, 'eval_frozen': 0, 'rvq_cosine': 0}
     ncfg = (40 if not ctx.thorough else 400) * scale
     for ci in range(ncfg):
         d = rng.choice([1, 2, 3])
@@ -85,7 +85,8 @@ def correspond(ctx, scale):
         d, K, nq = rng.choice([2, 3]), rng.choice([3, 6, 10]), rng.choice([2, 3])
         thr = rng.choice([1, 2, 0.5])
         decay = rng.choice([0.25, 0.5, 0.0])
-        kw = dict(dim=d, num_quantizers=nq, codebook_size=K, shared_codebook=shared, decay=decay, threshold_ema_dead_code=thr)
+        rcos = ci % 3 == 1
+        kw = dict(dim=d, num_quantizers=nq, codebook_size=K, shared_codebook=shared, decay=decay, threshold_ema_dead_code=thr, use_cosine_sim=rcos)
         rvq = ResidualVQ(**kw)
         for layer in (rvq.layers[:1] if shared else rvq.layers):
             vqrec.set_codebook_grid(layer, rng)
@@ -123,15 +124,16 @@ def correspond(ctx, scale):
                 for li, (cb, before, xs, idx, after) in enumerate(log):
                     r = vqrec.Rec()
                     r.before, r.after, r.xs, r.idx, r.mask, r.training, r.freeze = before, after, [xs], [idx], None, True, False
-                    cases.append(c03.update_term(r, 0, cb, False, TOL_E, TOL_S))
+                    cases.append(c03.update_term(r, 0, cb, rcos, TOL_E, TOL_S))
                     meta.append(dict(kind='rvq-layer', kw=kw, step=t, head=li, mode='train'))
             else:
                 dist['rvq_shared'] += 1
+                dist['rvq_cosine'] += rcos
                 cb = cbs[0]
                 final = vqrec.cb_state(cb)
                 layers = '[' + '; '.join(f'({qmat(xs)}, {natlist(idx)})' for (_, _, xs, idx, _) in log) + ']'
                 pool = [v for (_, _, xs, _, _) in log for v in xs]
-                cases.append(f'shared_expire_check {qlit(TOL_E)} {qlit(TOL_S)} {c03.coq_cfg(cb, False)} {vqrec.coq_state(state0, 0)} {layers} {qmat(pool)} {vqrec.coq_state(final, 0)}')
+                cases.append(f'shared_expire_check {qlit(TOL_E)} {qlit(TOL_S)} {c03.coq_cfg(cb, rcos)} {vqrec.coq_state(state0, 0)} {layers} {qmat(pool)} {vqrec.coq_state(final, 0)}')
                 meta.append(dict(kind='rvq-shared', kw=kw, step=t, head='all', mode='train'))
                 nontrivial += 1
     bad, broken = core.run_cases(ctx, 'c11', HEADER, cases, per_file=40)
